@@ -130,6 +130,13 @@ func seedFromEnv() int64 {
 	return 1
 }
 
+func sign(n int) int {
+	if n < 0 {
+		return -1
+	}
+	return 1
+}
+
 func workerMain(args []string) int {
 	// worker <id> <tier> <seed> <shard> <nshards> <workdir>
 	if len(args) != 6 {
@@ -147,6 +154,10 @@ func workerMain(args []string) int {
 		return 2
 	}
 	c := newCtx(id, tier, seed, shard, nshards, workdir)
+	{
+		name, off := time.Now().Zone()
+		c.Observe("process_time_zone", fmt.Sprintf("TZ=%q: time.Local is %s (%s, UTC%+03d:%02d)", os.Getenv("TZ"), time.Local.String(), name, off/3600, (off%3600)/60*sign(off)), 1)
+	}
 	jf, err := os.Create(filepath.Join(workdir, "journal"))
 	if err == nil {
 		c.journal = jf
@@ -475,6 +486,11 @@ func fatalSite(stderr string) string {
 	return first
 }
 
+// ShardZone is the TZ a shard's worker process runs in ("" = as inherited).
+func ShardZone(shard int) string {
+	return []string{"", "America/New_York", "Asia/Kolkata", "Pacific/Chatham"}[shard%4]
+}
+
 func runShard(exe, id, tier string, seed int64, shard, nshards int, wd string, timeout time.Duration) shardOutcome {
 	var o shardOutcome
 	stderrPath := filepath.Join(wd, "stderr")
@@ -483,6 +499,12 @@ func runShard(exe, id, tier string, seed int64, shard, nshards int, wd string, t
 	cmd.Stdout = ef
 	cmd.Stderr = ef
 	cmd.Env = append(os.Environ(), "GOTRACEBACK=all", "GORACE=halt_on_error=0 exitcode=0 log_path="+filepath.Join(wd, "race"))
+	// The local time zone of the serving / calling process is a platform fact
+	// no property depends on: three shards in four run outside UTC (west,
+	// east with a half-hour offset, and beyond +12 with a 45-minute offset).
+	if tz := ShardZone(shard); tz != "" {
+		cmd.Env = append(cmd.Env, "TZ="+tz)
+	}
 	if err := cmd.Start(); err != nil {
 		o.exit = "start: " + err.Error()
 		return o
